@@ -15,7 +15,9 @@ as a user would, i.e. VAR's `lax.map`/`lax.cond` path runs un-transformed):
 * per-element action alphabet at an element state x: {first action that continues the episode from x,
   first action that ends it} (decided with the bare env over the full alphabet, or 256 spread actions
   when it has > 1024); when only one kind exists, the first two actions of the alphabet.
-* ALL 2^B joint choice vectors on every joint state, to depth D; successors are those of VAR.
+* ALL 2^B joint choice vectors on every joint state, to depth D (quick 3; thorough 4 — with B=3 from the
+  stagger vectors 000/010/111 only, depth 3 from the other five, and B=4 to depth 3 from 4 stagger vectors);
+  successors are those of VAR.  Batch sizes 1-3 (quick), 1-4 (thorough).
 
 Oracles on every joint step (S, A), per-instance reference = bare env per element through un-batched
 `jit(env.step)` / `jit(env.reset)` (memoised):
@@ -765,8 +767,10 @@ def main(tier: str, seed: int) -> int:
         "element reset keys: PRNGKey(11*B + 3*i + 1) for element i of a batch of B (all different)",
         "per-element action alphabet {first continuing action, first episode-ending action} of the element's "
         "current state (bare env over the full alphabet, 256 spread actions when it exceeds 1024)",
-        "all 2^B joint choice vectors per step to depth 3 (quick) / 4 (thorough; 3 for B=4), from all 2^B stagger "
-        "vectors of {fresh reset, nearest state with an episode-ending action} (4 vectors for B=4)",
+        "all 2^B joint choice vectors per step to depth 3 (quick) / 4 (thorough), from all 2^B stagger vectors of "
+        "{fresh reset, nearest state with an episode-ending action}; thorough-tier reductions: for B=3 only the "
+        "stagger vectors 000, 010, 111 go to depth 4 (the other five to depth 3), B=4 uses 4 stagger vectors to "
+        "depth 3, and the three slow families (BinPack, PacMan, RobotWarehouse) use B<=3 and depth 3",
         "floats compared with rtol 1e-5 / atol 1e-6, everything else exactly",
     ]
     rep.require_positive("joint_steps", "batched_resets_checked", "renders_checked", "tree_slices_checked",
